@@ -60,7 +60,12 @@ def systematic(g, N, positive=True):
     site = T.sites[0]
     u = sj.obj(site.outs[0]).item()
     sargs, _ = gfi._site_args(site)
-    g.holds("offset ~ uniform(0, 1)", z3.And(solve.eq_arrays(sargs[0], sj.obj(sj.RV(0))), solve.eq_arrays(sargs[1], sj.obj(sj.RV(1)))))
+    lo_hi = [sj.unlog(sj.obj(a).item()) for a in sargs[:2]]
+    if all(sj.is_num(t) for t in lo_hi):
+        # constant parameters: decided structurally (value independent)
+        g.ok("offset ~ uniform(0, 1)", [sj.num_val(t) for t in lo_hi] == [0, 1], f"uniform({', '.join(str(t) for t in lo_hi)})")
+    else:
+        g.holds("offset ~ uniform(0, 1)", z3.And(solve.eq_arrays(sargs[0], sj.obj(sj.RV(0))), solve.eq_arrays(sargs[1], sj.obj(sj.RV(1)))))
     A = cons + [u > 0, u < 1]
     g.assume(*A)
     S = sum(P)
